@@ -176,7 +176,11 @@ func vMakeStrDef(tag string, withFormat bool) vStrDef {
 	d.hasMaxL, d.hasMinL = vBool(tag+".hasMaxLen"), vBool(tag+".hasMinLen")
 	d.maxL, d.minL = vI64(tag+".maxLen"), vI64(tag+".minLen")
 	vAssume(vAnd(d.maxL >= 0, d.minL >= 0))
-	d.pattern = []string{"", "a", "b"}[vChoice(tag+".pattern", 3)] // concrete per path: the pattern text ends up in report strings that get sorted
+	if vParam("nopattern") == 1 {
+		d.pattern = ""
+	} else {
+		d.pattern = []string{"", "a", "b"}[vChoice(tag+".pattern", 3)]
+	} // concrete per path: the pattern text ends up in report strings that get sorted
 	d.required = vBool(tag + ".required")
 	d.enumN = vChoice(tag+".enumN", 3)
 	for i := 0; i < d.enumN; i++ {
